@@ -185,3 +185,19 @@ Theorem ogen_encode_bipartitions_is_model : forall su cb ss mut acc s,
     gen_compile_immutable_bipartition_for_edge s = Ok (obj_encode su cb ss mut acc s).
 Proof. exact ogen_encode_generated_eq. Qed.
 Print Assumptions ogen_encode_bipartitions_is_model.
+
+(* wave 8: the statements of Tree.suppress_unifurcations that decide which objects stay in
+   Tree.bipartition_encoding (coq/Gen/SuppObj.v, regenerated by py/dv/gen_supp_obj.py on every run: the key put into
+   and looked up in bipartitions_to_delete is id(object) or the object itself, as the source says) leave exactly the
+   stored list of the model obj_supp: the old list filtered by IDENTITY of the removed outdegree-one nodes' objects *)
+From DV Require Import Model.C01SuppPrims Gen.SuppObj Proofs.C01SuppGen.
+
+Theorem generated_suppress_unifurcations_is_model : forall t' r s,
+  ogen_suppress_unifurcations_stored true (ot_heap s) (ot_tree s) (ot_stored s) = ot_stored (obj_supp t' r s).
+Proof. intros. apply generated_suppress_is_model_l. Qed.
+Print Assumptions generated_suppress_unifurcations_is_model.
+
+Theorem generated_suppress_unifurcations_without_update : forall h t stored,
+  ogen_suppress_unifurcations_stored false h t stored = stored.
+Proof. exact generated_suppress_without_update_l. Qed.
+Print Assumptions generated_suppress_unifurcations_without_update.
